@@ -27,6 +27,9 @@ type vStepIn struct {
 // history harnesses explore the combinations of operations).
 var vHistorySymbolic = false
 
+// vMinRaised: the minimum stake was raised during the history (validators staked under the old minimum may be below it)
+var vMinRaised = false
+
 func vSym(name string, lo, hi, c int64) sdk.Int {
 	if vHistorySymbolic {
 		return VSymInt(name, lo, hi)
@@ -88,10 +91,18 @@ func vApplyStep(e *VEnv, in vStepIn) {
 			}
 			e.K.StakeValidator(e.Ctx, v, in.amt)
 		}
-	case 1: // begin unstaking
-		if v, ok := e.Val(vi); ok && e.K.ValidateValidatorBeginUnstaking(e.Ctx, v) == nil {
-			if err := e.K.BeginUnstakingValidator(e.Ctx, v); err != nil {
-				panic(err)
+	case 1: // begin unstaking (the message handler's validation panics for a validator that a raised minimum left below
+		// it; baseapp.runTx recovers handler panics and fails the transaction)
+		if v, ok := e.Val(vi); ok {
+			valid := false
+			func() {
+				defer func() { recover() }()
+				valid = e.K.ValidateValidatorBeginUnstaking(e.Ctx, v) == nil
+			}()
+			if valid {
+				if err := e.K.BeginUnstakingValidator(e.Ctx, v); err != nil {
+					panic(err)
+				}
 			}
 		}
 	case 2: // time passes (symbolic: before / at / after the unstaking time), EndBlock
@@ -141,6 +152,11 @@ func vApplyStep(e *VEnv, in vStepIn) {
 		}
 		e.Advance(time.Second, 1)
 		e.K.handleValidatorSignature(e.Ctx, e.Pubs[vi].Address(), in.power, in.signed)
+	case 11: // governance raises the minimum stake (validators below it keep their stake but cannot finish/join normally)
+		p := e.K.GetParams(e.Ctx)
+		p.StakeMinimum = 3000000
+		e.K.SetParams(e.Ctx, p)
+		vMinRaised = true
 	case 10: // the application queues a custom burn for the validator (applied by the next BeginBlocker)
 		if _, ok := e.Val(vi); ok {
 			e.K.BurnValidator(e.Ctx, e.Addrs[vi], in.frac)
@@ -166,7 +182,8 @@ func vHistoryEnv() *VEnv {
 // is below the minimum stake.
 func vHistory(p string, steps int, symbolic bool) {
 	vHistorySymbolic = symbolic
-	nOps := 11
+	vMinRaised = false
+	nOps := 12
 	if steps > 2 {
 		nOps = 8 // longer histories over the core alphabet (no discarded branches, votes, custom burns)
 	}
@@ -177,6 +194,12 @@ func vHistory(p string, steps int, symbolic bool) {
 	stake0 := vSym("stake0", 1000000, 1<<50, 2000000)
 	zz.Assume(stake0.LTE(bal0))
 	e.Stake(0, stake0)
+	if p == "C04" && zz.Choice("v0_already_unstaking", 2) == 1 {
+		v, _ := e.Val(0)
+		if err := e.K.BeginUnstakingValidator(e.Ctx, v); err != nil {
+			panic(err)
+		}
+	}
 	for s := 0; s < steps; s++ {
 		vApplyStep(e, vDrawStep([]string{"s1", "s2", "s3"}[s], nOps))
 		e.invariants(p + ".history")
@@ -187,7 +210,7 @@ func vHistory(p string, steps int, symbolic bool) {
 				ok = false
 			}
 		}
-		zz.Assert(p+".history.staked-validators-hold-the-minimum", ok)
+		zz.Assert(p+".history.staked-validators-hold-the-minimum", ok || vMinRaised)
 	}
 	zz.Reach(p + ".history")
 }
@@ -338,4 +361,66 @@ func VerifC11_DiscardedBranch() {
 	vApplyStep(b, real)
 	zz.Assert("C11.discarded.later-execution-unaffected", a.MS.Same(b.MS.Snapshot()))
 	zz.Reach("C11.discarded.end")
+}
+
+// VerifC10_AwardAfterDiscardedBranch: an award queued on a cache-wrapped branch that is discarded (failed or simulated
+// transaction) is not minted; an award queued for the same address afterwards in the same block is minted exactly.
+func VerifC10_AwardAfterDiscardedBranch() {
+	e := vHistoryEnv()
+	e.K.SetPreviousProposer(e.Ctx, e.Addrs[1])
+	lost, kept := VSymInt("discarded_award", 1, 1<<50), VSymInt("committed_award", 1, 1<<50)
+	cctx, _ := e.Ctx.CacheContext()
+	e.K.AwardCoinsTo(cctx, lost, e.Addrs[2])
+	e.K.AwardCoinsTo(e.Ctx, kept, e.Addrs[2])
+	pre := e.snap()
+	e.Advance(time.Second, 1)
+	BeginBlocker(e.Ctx, abci.RequestBeginBlock{Header: abci.Header{ProposerAddress: e.Addrs[1]}}, e.K)
+	post := e.snap()
+	zz.Assert("C10.discarded-award.only-the-committed-award-is-minted", post.bal[2].Sub(pre.bal[2]).Equal(kept) && post.supply.Sub(pre.supply).Equal(kept))
+	zz.Reach("C10.discarded-award.end")
+}
+
+// VerifC01_KeeperRestart: a running instance and one restarted from the same stores (fresh keeper objects) behave the
+// same: after a history step, a change of a pos parameter written the way governance writes it (directly into the
+// parameter subspace) and possibly a read of an older state, every read through the keepers and the next EndBlock
+// give the same answers - whatever a keeper remembers outside the stores must not matter.
+func VerifC01_KeeperRestart() {
+	vHistorySymbolic = false
+	e := vHistoryEnv()
+	e.Fund(e.Addrs[2], sdk.NewInt(7000000))
+	e.Fund(e.Addrs[0], sdk.NewInt(9000000))
+	e.Stake(0, sdk.NewInt(2000000))
+	_ = e.K.GetParams(e.Ctx) // the running instance has read its parameters before
+	vApplyStep(e, vDrawStep("s1", 9))
+	// governance changes a pos parameter through the parameter store (gov.ModifyParam -> Subspace.Update/Set)
+	switch zz.Choice("param_change", 3) {
+	case 1:
+		e.K.Paramstore.Set(e.Ctx, types.KeyMaxValidators, uint64(1))
+	case 2:
+		e.K.Paramstore.Set(e.Ctx, types.KeyUnstakingTime, time.Duration(5*time.Second))
+	}
+	r := VRestart(e)
+	pa, pb := e.K.GetParams(e.Ctx), r.K.GetParams(r.Ctx)
+	zz.Assert("C01.restart.same-parameters", pa.MaxValidators == pb.MaxValidators && pa.UnstakingTime == pb.UnstakingTime && pa.StakeMinimum == pb.StakeMinimum && pa.SignedBlocksWindow == pb.SignedBlocksWindow)
+	zz.Assert("C01.restart.same-supply-read", e.Supply().Equal(r.Supply()))
+	for i := range e.Addrs {
+		va, fa := e.Val(i)
+		vb, fb := r.Val(i)
+		zz.Assert("C01.restart.same-validator-read", fa == fb && (!fa || (va.Jailed == vb.Jailed && va.Status == vb.Status && va.StakedTokens.Equal(vb.StakedTokens))))
+	}
+	// the next step and EndBlock, executed by the running instance on one branch and by the restarted one on another
+	in := vDrawStep("s2", 9)
+	ca, _ := e.Ctx.CacheContext()
+	cb, _ := r.Ctx.CacheContext()
+	ea, eb := *e, *r
+	ea.Ctx, eb.Ctx = ca, cb
+	vApplyStep(&ea, in)
+	vApplyStep(&eb, in)
+	ua, ub := EndBlocker(ea.Ctx, ea.K), EndBlocker(eb.Ctx, eb.K)
+	same := len(ua) == len(ub)
+	for i := 0; same && i < len(ua); i++ {
+		same = ua[i].Power == ub[i].Power && ua[i].PubKey.Type == ub[i].PubKey.Type && string(ua[i].PubKey.Data) == string(ub[i].PubKey.Data)
+	}
+	zz.Assert("C01.restart.same-validator-updates", same)
+	zz.Reach("C01.restart.keeper.end")
 }
